@@ -40,10 +40,32 @@ class DriftEnv(AbstractEnv):
     name: ClassVar[str] = "Drift"
     action_space: Box | Discrete | MultiDiscrete | MultiBinary
     observation_space: Box
+    masked: bool = eqx.field(static=True)
 
-    def __init__(self, action_space):
+    def __init__(self, action_space, masked=False):
         self.action_space = action_space
         self.observation_space = Box(-2.0 * jnp.ones(3), 2.0 * jnp.ones(3))
+        self.masked = bool(masked) and not isinstance(action_space, Box)
+
+    def mask_of(self, x):
+        """state-dependent action mask (a function of the observation, so that it can be recomputed from the
+        recorded observation): Discrete(n) -> (n,), MultiDiscrete(nvec) -> (sum nvec,), at least one entry
+        allowed per component; MultiBinary(n) -> (n,) bits that may be set"""
+        sp = self.action_space
+        h = jnp.floor(jnp.abs(x[0]) * 97.0).astype(int) + 3 * jnp.floor(jnp.abs(x[1]) * 89.0).astype(int)
+        if isinstance(sp, Discrete):
+            dims = [int(sp.n)]
+        elif isinstance(sp, MultiDiscrete):
+            dims = [int(d) for d in np.asarray(sp.nvec).ravel()]
+        else:
+            n = int(np.prod(sp.shape))
+            return ((h + jnp.arange(n)) % 3 != 0)
+        parts = []
+        for j, d in enumerate(dims):
+            m = ((h + 2 * j + jnp.arange(d)) % 3 != 0)
+            m = m.at[(h + j) % d].set(True)            # never an empty component
+            parts.append(m)
+        return jnp.concatenate(parts)
 
     def _embed(self, action):
         a = jnp.ravel(jnp.asarray(action, dtype=float))
@@ -53,7 +75,7 @@ class DriftEnv(AbstractEnv):
         return DriftState(jr.uniform(key, (3,), minval=-0.5, maxval=0.5), jnp.array(0, dtype=int))
 
     def action_mask(self, state, *, key):
-        return None
+        return self.mask_of(state.x) if self.masked else None
 
     def transition(self, state, action, *, key):
         x = 0.9 * state.x + 0.1 * self._embed(action) + 0.05 * jr.normal(key, (3,))
@@ -86,14 +108,39 @@ class DriftEnv(AbstractEnv):
 
 def action_spaces():
     return [
-        ("Box1[-0.5,0.5]", Box(-0.5, 0.5, shape=(1,))),
-        ("Box3[-0.4,0.6]", Box(-0.4 * jnp.ones(3), 0.6 * jnp.ones(3))),
-        ("Box2[-1,1]", Box(-jnp.ones(2), jnp.ones(2))),
-        ("Discrete4", Discrete(4)),
-        ("MultiDiscrete(3,3)", MultiDiscrete((3, 3))),
-        ("MultiDiscrete(2,4,3)", MultiDiscrete((2, 4, 3))),
-        ("MultiBinary3", MultiBinary(3)),
+        ("Box1[-0.5,0.5]", Box(-0.5, 0.5, shape=(1,)), False),
+        ("Box3[-0.4,0.6]", Box(-0.4 * jnp.ones(3), 0.6 * jnp.ones(3)), False),
+        ("Box2[-1,1]", Box(-jnp.ones(2), jnp.ones(2)), False),
+        ("Discrete4", Discrete(4), False),
+        ("MultiDiscrete(3,3)", MultiDiscrete((3, 3)), False),
+        ("MultiDiscrete(2,4,3)", MultiDiscrete((2, 4, 3)), False),
+        ("MultiBinary3", MultiBinary(3), False),
+        ("Discrete5+masks", Discrete(5), True),
+        ("MultiDiscrete(3,4)+masks", MultiDiscrete((3, 4)), True),
+        ("MultiBinary4+masks", MultiBinary(4), True),
     ]
+
+
+def mask_violations(env0, space, flat):
+    """(recorded mask != mask the environment offers for the recorded observation, chosen action not allowed
+    by that mask) counted over the rows of a flattened rollout"""
+    obs = np.asarray(flat.observations, np.float64)
+    offered = np.stack([np.asarray(env0.mask_of(jnp.asarray(o, dtype=flat.observations.dtype))) for o in obs])
+    recorded = np.asarray(flat.action_masks).reshape(offered.shape)
+    acts = np.asarray(flat.actions).reshape(len(obs), -1).astype(int)
+    bad = 0
+    for t in range(len(obs)):
+        m = offered[t]
+        if isinstance(space, Discrete):
+            bad += int(not m[acts[t, 0]])
+        elif isinstance(space, MultiDiscrete):
+            off = 0
+            for j, d in enumerate(int(x) for x in np.asarray(space.nvec).ravel()):
+                bad += int(not m[off + acts[t, j]])
+                off += d
+        else:
+            bad += int((acts[t].astype(bool) & ~m).any())
+    return int((offered != recorded).any(axis=1).sum()), bad
 
 
 def reevaluation_cases(ctx, n_cases):
@@ -103,9 +150,10 @@ def reevaluation_cases(ctx, n_cases):
     order = list(range(len(spaces)))
     rng.shuffle(order)
     for i in range(n_cases):
-        name, space = spaces[order[i % len(spaces)]]
+        name, space, masked = spaces[order[i % len(spaces)]]
         limit = int(rng.integers(3, 7))
-        env = TimeLimit(DriftEnv(space), limit)
+        env0 = DriftEnv(space, masked)
+        env = TimeLimit(env0, limit)
         log_std = float(rng.choice([0.0, -0.7, 0.6]))
         E, T = int(rng.choice([1, 3])), int(rng.integers(6, 12))
         which = str(rng.choice(["PPO", "A2C"]))
@@ -127,7 +175,9 @@ def reevaluation_cases(ctx, n_cases):
         if isinstance(space, Box):
             lo, hi = np.asarray(space.low, np.float64).ravel(), np.asarray(space.high, np.float64).ravel()
             clipped = int(((acts < lo) | (acts > hi)).any(axis=1).sum())
-        yield {"algo": which, "action_space": name, "log_std_init": log_std, "num_envs": E, "num_steps": T,
+        mask_mismatch, mask_disobeyed = mask_violations(env0, space, flat) if masked else (0, 0)
+        yield {"masked": masked, "recorded_mask_differs_from_offered": mask_mismatch,
+               "actions_not_allowed_by_offered_mask": mask_disobeyed, "algo": which, "action_space": name, "log_std_init": log_std, "num_envs": E, "num_steps": T,
                "time_limit": limit, "stored_log_prob": np.asarray(flat.log_probs, np.float64),
                "reevaluated_log_prob": np.asarray(lp, np.float64), "stored_value": np.asarray(flat.values, np.float64),
                "reevaluated_value": np.asarray(v, np.float64), "actions": acts, "out_of_bounds_samples": clipped,
